@@ -24,3 +24,16 @@ Definition run_f_exp_online (steps : nat) dt refrac comp inps draws0 draws : tre
   ser_matrix (exp_online FN steps dt refrac comp inps draws0 draws).
 Definition run_f_inhomog dt (inps : list (list PrimFloat.float)) : tree :=
   ser_list (ser_list ser_float) (map (map (bern_prob FN dt)) inps).
+
+(* configuration through setters: getters after every assignment, then forward on the state reached *)
+Definition ser_estate (s : estate FN) : tree :=
+  Nd [L (e_steps FN s); ser_float (e_dt FN s); ser_float (e_freq FN s); ser_bool (e_comp FN s); ser_float (e_refrac FN s)].
+Definition ser_step (r : estate FN * option Z) : tree :=
+  Nd [ser_option ser_Z (snd r); ser_estate (fst r)].
+Definition run_seq (k : enc_kind) (c : config FN) (l : list (assignment FN))
+           (fwd : config FN -> tree) : tree :=
+  match construct FN k c with
+  | Err code => Nd [L 1%Z; L code]
+  | Ok s0 => let r := assign_all FN k s0 l in
+             Nd [L 0%Z; ser_estate s0; ser_list ser_step (fst r); fwd (forward_config FN (snd r))]
+  end.
